@@ -97,8 +97,15 @@ def sh(f, s):
     return lambda t, *rest: f(t - s, *rest)
 
 
+def g_switch(t):
+    """a decay channel that is switched on (smoothly, within ~0.1) at relative time 0.45: constant before and after"""
+    return 0.45 * (np.tanh((t - 0.45) / 0.04) + 1.0)
+
+
 def td_system(sysk, s, which=1):
     h, g, a = (h1, g1, a1) if which == 1 else (h2, g2, a2)
+    if sysk == "H+Lswitch":
+        g = g_switch
     if sysk == "H":
         return oq.TimeDependentSystem(sh(h, s["H"]))
     return oq.TimeDependentSystem(sh(h, s["H"]), gammas=[sh(g, s["gamma"])],
@@ -107,6 +114,8 @@ def td_system(sysk, s, which=1):
 
 def field_system(sysk, s, which=1):
     h, g, a = (h1, g1, a1) if which == 1 else (h2, g2, a2)
+    if sysk == "H+Lswitch":
+        g = g_switch
     c = 0.4 if which == 1 else 0.3
 
     def hf(t, fld):
@@ -414,7 +423,7 @@ def cases(tier):
     taus, t0s = TAUS[tier], T0S[tier]
     envs = ["none", "ancilla", "pttempo"]
     out = []
-    for t0, tau, sysk, sub in itertools.product(t0s, taus, ["H", "H+L"], [None, "default"]):
+    for t0, tau, sysk, sub in itertools.product(t0s, taus, ["H", "H+L", "H+Lswitch"], [None, "default"]):
         common = {"t0": t0, "tau": tau, "sys": sysk, "subdiv": sub}
         for dk in (None, 2):
             out.append(dict(common, prod="tempo", dkmax=dk))
